@@ -2,6 +2,7 @@ package mount
 
 import (
 	"errors"
+	iofs "io/fs"
 	"strings"
 	"sync"
 
@@ -59,7 +60,7 @@ func VerifC06Route() {
 	} else {
 		n := verifChoice("path.len", verifParam("PATHLEN")+1)
 		p = verifString("p", n)
-		verifAssume(hackpadfs.ValidPath(p))
+		verifAssume(iofs.ValidPath(p))
 	}
 	want, wantSub := c06Spec(points, p)
 	got, gotSub := fs.Mount(p)
